@@ -1083,7 +1083,7 @@ def run(repo, task):
     rep = Report('C07-coercion', task,
                  rule='one evaluation = one catalogue operation on one ordered pair (array kind A, array kind B | element of kind B incl. Python and NumPy scalar forms) '
                       'under one block layout of the host frame; every result cell is compared with the element supplied for it (type class, exact int value, str length) '
-                      'and every unaddressed column with its input dtype; non-trivial when the operation accepted the combination (did not raise) and A != B',
+                      'and every unaddressed column with its input dtype; Frame values whose columns are separate blocks of different dtypes assigned to part of the rows of one block; non-trivial when the operation accepted the combination (did not raise) and A != B',
                  bound=f'{len(KIND_NAMES)} dtype kinds {KIND_NAMES} + element-only kinds {list(ELEMENT_ONLY)}; {len(ELEMENT_OPS)} element operations, {len(ARRAY_OPS)} array operations; '
                        '3-element arrays (' + ('1 value set' if tier == 'quick' else '2 value sets') + '), 4-column host frame in 2 layouts (all 1-D blocks | 2-D block [x,x2] + 2-D y + 1-D z); str x bytes pairs excluded')
     refused = {}
